@@ -687,8 +687,10 @@ def check_main(prop, tier, seed, only=None, nshard=None, verbose=True):
         "violations": len(new_lines),
     }
     if not only:
-        os.makedirs(os.path.join(VERIF, "evidence"), exist_ok=True)
-        with open(os.path.join(VERIF, "evidence", prop + ".json"), "w") as f:
+        # VERIF_EVIDENCE_DIR redirects the evidence of runs against scratch trees (seeded-change evaluation)
+        evdir = os.environ.get("VERIF_EVIDENCE_DIR") or os.path.join(VERIF, "evidence")
+        os.makedirs(evdir, exist_ok=True)
+        with open(os.path.join(evdir, prop + ".json"), "w") as f:
             json.dump(ev, f, indent=1, sort_keys=True)
     else:
         log(json.dumps(ev["coverage"]["subchecks"], indent=1))
